@@ -2,6 +2,8 @@ SPECIFICATION Spec
 CONSTANTS
   Shapes <- ThoroughShapes
   B = 4
+  FrameSizes = {1, 2, 3}
+  OutBufs = {1, 2, 4}
   RFaults <- ThoroughRFaults
   WFaults <- ThoroughWFaults
 INVARIANT PInv
